@@ -586,7 +586,9 @@ func (w *srvWorld) checkC07UnknownCancel(replies map[*member]replyRef) {
 			if m.Kind != mCall || m.ID == "" || m.Enters > 0 || !ok || ref.mixed || msg.Arrive < 0 {
 				continue
 			}
-			if !ref.obj.HasErr || ref.obj.Code != int(jrpc2.Cancelled) {
+			// answered with an error that does not say something else (not a
+			// duplicate rejection, not method-not-found ...): turned away as if cancelled
+			if !ref.obj.HasErr || saysSomethingElse[ref.obj.Code] && ref.obj.Code != -32096 {
 				continue
 			}
 			end := 1 << 30
@@ -1047,6 +1049,53 @@ func (w *srvWorld) checkC09(final bool) {
 			if sentPerID[id] > reqs {
 				r.Fail("stray-output-for-unmatched-reply", "the server sent %d response objects with id %s but the client made only %d requests with that id; a reply that matches no outstanding callback must be discarded silently, not answered (e.g. %s)", sentPerID[id], id, reqs, example[id])
 				return
+			}
+		}
+	}
+}
+
+// checkC07Prompt (at a quiescent point): a lone request that bears the id of a
+// call which entered its handler before the request arrived, and which is still
+// running, is a duplicate of an in-flight id: "rejected ... without disturbing
+// the first" - it must have been answered by now (nothing the property allows
+// holds a duplicate back: it needs no handler slot, and dispatch is only ever
+// parked behind an unfinished notification).
+func (w *srvWorld) checkC07Prompt() {
+	if w.stopSeq >= 0 || w.baseCancelSeq >= 0 {
+		return
+	}
+	w.noteArrivals()
+	unfinishedNote := false
+	for bi, bmsg := range w.msgs {
+		if bmsg.Sent < 0 {
+			return
+		}
+		if !unfinishedNote && bmsg.Arrive >= 0 && len(bmsg.Members) == 1 && !bmsg.Garbage && !bmsg.Empty {
+			b := bmsg.Members[0]
+			if b.ID != "" && b.Kind != mInvalid && b.Kind != mReply {
+				for _, amsg := range w.msgs[:bi] {
+					for _, a := range amsg.Members {
+						if a.ID == b.ID && a.Kind == mCall && a.Enter >= 0 && a.Enter < bmsg.Arrive && a.Exit < 0 {
+							answered := false
+							for _, o := range w.out {
+								for _, ob := range o.Objs {
+									if ob.Method == "" && ob.ID == b.ID && o.Seq > bmsg.Arrive {
+										answered = true
+									}
+								}
+							}
+							if !answered {
+								w.r.Fail("duplicate-not-rejected-while-in-flight", "request %s (id %s, arrived #%d) bears the id of call %s, which entered its handler at #%d and is still running, yet it has not been answered at this quiescent point: a duplicate of an in-flight id is rejected, not held back", b.Tag, b.ID, bmsg.Arrive, a.Tag, a.Enter)
+								return
+							}
+						}
+					}
+				}
+			}
+		}
+		for _, m := range bmsg.Members {
+			if m.Kind == mNote && m.Exit < 0 {
+				unfinishedNote = true
 			}
 		}
 	}
